@@ -164,12 +164,14 @@ def check_property(pid, tier, seed):
             continue        # the generator produced a case the API cannot even be called with
         if it is None or mt is None:
             mismatches.append((cid, 'missing-trace', it, mt)); continue
+        it_full = it
+        it = it.split(' ## ')[0]          # harness-only measurements (allocator) follow ' ## '
         pi, pm = prop.project(line, it), prop.project(line, mt)
         if pi != pm:
             mismatches.append((cid, 'correspondence', it, mt))
         elif it != mt:
             fidelity.append(cid)
-        v = prop.monitor(line, it, mline_by_id.get(cid, line))
+        v = prop.monitor(line, it_full, mline_by_id.get(cid, line))
         if v:
             sig = prop.signature(line, it, v)
             kf = [k for k in known.get('findings', []) if k['property'] == pid and k['signature'] == sig]
@@ -186,6 +188,8 @@ def check_property(pid, tier, seed):
         if cid not in case_by_id:
             derived += 1
             it = impl.get(cid)
+            if it is not None:
+                it = it.split(' ## ')[0]
             if it is not None and it != mt and not it.startswith('bad-case'):
                 mismatches.append((cid, 'correspondence', it, mt))
                 case_by_id.setdefault(cid, mline_by_id.get(cid, ''))
